@@ -48,7 +48,7 @@ def dec_opt(w):
 
 
 def enc_case(c):
-    groups = ",".join(hx(n) + ":" + hx(d) for n, d in c["groups"]) if c["groups"] else "."
+    groups = ",".join(hx(g[0]) + ":" + hx(g[1]) + (":L" if len(g) > 2 and g[2] else "") for g in c["groups"]) if c["groups"] else "."
     pos = "0" if not c["pos"] else ("1" if c.get("posamt") is None else "a%d" % c["posamt"])
     if c.get("hist"):
         pos += ":" + c["hist"]
@@ -58,7 +58,7 @@ def enc_case(c):
 
 def dec_case(line):
     w = line.split(" ")
-    groups = [] if w[7] == "." else [tuple(unhx(x) for x in g.split(":")) for g in w[7].split(",")]
+    groups = [] if w[7] == "." else [(unhx(g.split(":")[0]), unhx(g.split(":")[1]), g.endswith(":L")) for g in w[7].split(",")]
     pos, _, hist = w[4].partition(":")
     posamt = int(pos[1:]) if pos.startswith("a") else None
     return dict(app=unhx(w[1]), about=unhx(w[2]), defname=unhx(w[3]), pos=pos not in ("0", "a0"), posamt=posamt, hist=hist,
@@ -94,7 +94,8 @@ def k2_lines(c):
     out = []
     if c["about"]:
         out += [l for l in c["about"].split("\n") if len(l) > 80]
-    for gi, (_, gd) in enumerate(c["groups"]):
+    for gi, g in enumerate(c["groups"]):
+        gd = g[1]
         if gd and any(o["group"] == gi + 1 for o in c["opts"]):
             out += [l for l in gd.split("\n") if len(l) > 80]
     return out
@@ -228,7 +229,7 @@ def gen_usage_case(rng, k2=False):
         if groups and opts and rng.random() < 0.5:
             gi = opts[0]["group"] or 1
             opts[0]["group"] = gi
-            groups[gi - 1] = (groups[gi - 1][0], long_line)
+            groups[gi - 1] = (groups[gi - 1][0], long_line) + tuple(groups[gi - 1][2:])
         else:
             about = long_line if rng.random() < 0.5 else "intro\n" + long_line + "\nend"
     prior = "" if rng.random() < 0.1 else "".join(rng.choice("xy \n") for _ in range(rng.choice([1, 5, 7, 11, 13, 40, 79, 80, 81, 120])))
@@ -321,13 +322,53 @@ def gen_fp_longword_case(rng):
 def add_history(rng, c):
     """state that survives between uses: parse() calls before and between the usage() calls on the same parser object
     (empty / giving / failing argument vectors), a limited positional count, and options declared after a first usage()"""
-    c["hist"] = "".join(rng.sample("egf", rng.randint(1, 3))) if rng.random() < 0.85 else "g"
+    c["hist"] = "".join(rng.sample("egfca", rng.randint(1, 4))) if rng.random() < 0.85 else rng.choice(["g", "c", "a", "ca"])
     if c["pos"] and rng.random() < 0.6:
         c["posamt"] = rng.choice([1, 1, 2, 3])
     if c["opts"] and rng.random() < 0.5:
         k = rng.randint(1, min(2, len(c["opts"])))
         for o in c["opts"][-k:]:
             o["late"] = True
+    if rng.random() < 0.6:
+        with_moved_groups(rng, c)
+    return c
+
+
+def with_moved_groups(rng, c):
+    """2-4 named groups, each with at least one option (an empty group is not printed), created in an order that is NOT
+    the alphabetical one (a std::map iterates alphabetically); sometimes one more group that is created late, i.e. after the
+    parser has been parsed with / moved / printed"""
+    ng = rng.choice([2, 3, 3, 4])
+    names = set()
+    while len(names) < ng:
+        names.add(rng.choice("abcdefghmnxyz") + "".join(rng.choice(LETTERS) for _ in range(rng.randint(0, 5))))
+    names = sorted(names)
+    order = names[:]
+    while order == names:
+        rng.shuffle(order)
+    if rng.random() < 0.5:
+        order = sorted(names, reverse=True)
+    groups = [(n, "" if rng.random() < 0.6 else short_words(rng, 3), False) for n in order]
+    used = set(o["name"] for o in c["opts"])
+    late_group = rng.random() < 0.5
+    if late_group:
+        groups.append((rng.choice(["a", "m", "zz"]) + "late", "", True))
+    c["groups"] = groups
+    for o in c["opts"]:
+        o["group"] = rng.randint(0, ng)
+    for gi in range(1, len(groups) + 1):
+        if not any(o["group"] == gi for o in c["opts"]):
+            o = gen_opt(rng, used, 0)
+            o["group"] = gi
+            o["descr"] = short_words(rng, 2)
+            c["opts"].append(o)
+    if late_group:
+        for o in c["opts"]:
+            if o["group"] == len(groups):
+                o["late"] = True
+    # late options are listed (and declared) after the others
+    c["opts"] = [o for o in c["opts"] if not o.get("late")] + [o for o in c["opts"] if o.get("late")]
+    rerank(c["opts"], rng)
     return c
 
 
@@ -354,6 +395,12 @@ def small_usage_cases():
         opts = [dict(kind=k, group=0, name=n, short=None, descr="d", env="", metavar="ARG", flag=(k != "t"), rank=None,
                      default=(False if k == "t" else None), late=(late and n == "cc")) for k, n in zip("otm", ["aa", "bb", "cc"])]
         yield dict(app="app", about="", defname="arguments", pos=True, posamt=posamt, hist=hist, posname="args", prior="p", groups=[], opts=rerank(opts))
+    # moved parser: groups must stay in creation order (three groups, all six orders; a late group; both kinds of move)
+    for hist, perm, lateg in itertools.product(["c", "a", "gca"], itertools.permutations(["alpha", "mid", "zeta"]), [False, True]):
+        groups = [(n, "", False) for n in perm] + ([("beta", "", True)] if lateg else [])
+        opts = [dict(kind="o", group=i + 1, name="o%d" % i, short=None, descr="", env="", metavar="ARG", flag=True, rank=None,
+                     default=None, late=(i == 3)) for i in range(len(groups))]
+        yield dict(app="app", about="", defname="arguments", pos=False, posamt=None, hist=hist, posname="args", prior="", groups=groups, opts=opts)
     # byte order: letters are sorted as (signed) char, names as unsigned bytes; groups print in creation order
     def tg(name, short, group=0, flag=False):
         return dict(kind="t", group=group, name=name, short=short, descr="", env="", metavar="ARG", flag=flag, rank=None, default=False)
@@ -430,7 +477,7 @@ class C15(Check):
     level_note = ("trusted: Coq kernel, ExtrOcamlBasic extraction, OCaml compiler, the differential harness. Proved about the model only; "
                   "model = code is tested (exact text, bounded-exhaustive + random), not proved. Only exercised by the driver, not "
                   "proved: independence of the real code from state left by earlier uses (parse() calls of three kinds before and between "
-                  "usage() calls, a first usage() before late declarations, usage() twice on the same stream kind: in the model the text "
+                  "usage() calls, move construction / move assignment of the parser, a first usage() before late declarations and late groups, usage() twice on the same stream kind: in the model the text "
                   "is a function of the declaration alone) and stream independence of the real code (fresh stringstream / stringstream with prior content / non-seekable "
                   "ostream / std::cout with swapped rdbuf must receive identical text); std::setw + operator<<(char) padding, tellp(), "
                   "std::map name order, std::sort on (signed) char, nitro::format's one-placeholder substitution (modelled as "
@@ -450,7 +497,9 @@ class C15(Check):
             "format_padded-level cases with an unbreakable word (>= 40 bytes behind the option column, >= 72-|app| in the synopsis) "
             "FOLLOWED by several short words, in descriptions, defaults and synopsis entries, incl. two unbreakable words in a row; "
             "about 30% of the usage cases carry state between uses: parse() calls (empty, giving, failing argument vectors) before and "
-            "between the usage() calls on the same parser object, accept_positionals(k), options declared after a first usage() call, "
+            "between the usage() calls on the same parser object, the parser move-constructed into a new object / move-assigned into a used "
+            "one at the same points (with 2-4 named groups created in non-alphabetical order, and a group created after the move), "
+            "accept_positionals(k), options declared after a first usage() call, "
             "and usage() twice on a fresh string stream; (iii) declarations outside the "
             "model's domain (duplicate names, reserved/duplicate group names, empty metavar, two-byte short name): only 'no crash, no "
             "hang' is compared; (iv) corpus. A usage case is "
@@ -559,9 +608,11 @@ class C15(Check):
             yield variant(pos=False)
         if c["groups"] and all(o["group"] != len(c["groups"]) for o in c["opts"]):
             yield variant(groups=c["groups"][:-1])
-        for gi, (gn, gd) in enumerate(c["groups"]):
-            if gd:
-                yield variant(groups=c["groups"][:gi] + [(gn, "")] + c["groups"][gi + 1:])
+        for gi, g in enumerate(c["groups"]):
+            if g[1]:
+                yield variant(groups=c["groups"][:gi] + [(g[0], "") + tuple(g[2:])] + c["groups"][gi + 1:])
+            if len(g) > 2 and g[2]:
+                yield variant(groups=c["groups"][:gi] + [(g[0], g[1], False)] + c["groups"][gi + 1:])
         if len(c["app"]) > 0:
             yield variant(app=c["app"][:-1])
             yield variant(app=c["app"][:len(c["app"]) // 2])
